@@ -36,6 +36,8 @@ def loads(s):
 
 def q(x):
     """decode (n d) or int"""
+    if isinstance(x, Fraction):
+        return x
     if isinstance(x, int):
         return Fraction(x)
     return Fraction(x[0], x[1])
